@@ -4,7 +4,7 @@
    Output per step k: word r<k> (heap machine) and word s<k> (value-level spec):
      <result> <slot 0> ... <slot N-1> L<live probe>,<live mprobe>
    and at the end, after destroying every container: word rfin / sfin. *)
-let ntypes = 6
+let ntypes = 7
 
 let parse_op (tok : string) : op =
   let p = String.split_on_char ':' tok in
@@ -33,6 +33,14 @@ let parse_op (tok : string) : op =
   | [ "crv"; d; t ] -> OCastRVal (n d, n t)
   | [ "setp"; d; t; v ] -> OSetPtr (n d, n t, zv v)
   | [ "setr"; d; t; v ] -> OSetRef (n d, n t, zv v)
+  | [ "cpq"; d; t ] -> OCastPtrCq (n d, n t)
+  | [ "crq"; d; t ] -> OCastRefCq (n d, n t)
+  | [ "xv"; d; t; m ] -> OCastXVal (false, n d, n t, m <> "0")
+  | [ "xa"; d; t; m ] -> OCastXVal (true, n d, n t, m <> "0")
+  | [ "valx"; d; t; v ] -> OValueThrow (n d, n t, zv v)
+  | [ "vasx"; d; t; v ] -> OValueAssignThrow (n d, n t, zv v)
+  | [ "cpyx"; d; s; tx ] -> OCopyCtorArmed (n d, n s, n tx)
+  | [ "casx"; d; s; tx ] -> OCopyAssignArmed (n d, n s, n tx)
   | _ -> failwith ("drv_C20: bad op token " ^ tok)
 
 let res_tok (r : result) : string =
@@ -43,9 +51,12 @@ let res_tok (r : result) : string =
   | RType None -> "tvoid"
   | RType (Some t) -> Printf.sprintf "t%d" (int_of_nat t)
   | RPtr None -> "pnull"
-  | RPtr (Some v) -> Printf.sprintf "p%d" (int_of_z v)
-  | RVal v -> Printf.sprintf "v%d" (int_of_z v)
+  | RPtr (Some (Some v)) -> Printf.sprintf "p%d" (int_of_z v)
+  | RPtr (Some None) -> "pm"
+  | RVal (Some v) -> Printf.sprintf "v%d" (int_of_z v)
+  | RVal None -> "vm"
   | RThrow -> "throw"
+  | RExn -> "exn"
   | RFault (DoubleFree _) -> "fault-double-free"
   | RFault (UseAfterFree _) -> "fault-use-after-free"
 
@@ -53,8 +64,10 @@ let res_tok (r : result) : string =
 let short (r : result) : string =
   match r with
   | RPtr None -> "n"
-  | RPtr (Some v) | RVal v -> string_of_int (int_of_z v)
+  | RPtr (Some (Some v)) | RVal (Some v) -> string_of_int (int_of_z v)
+  | RPtr (Some None) | RVal None -> "m"
   | RThrow -> "x"
+  | RExn -> "exn"
   | RBool b -> if b then "1" else "0"
   | RType None -> "void"
   | RType (Some t) -> string_of_int (int_of_nat t)
@@ -77,13 +90,24 @@ let slot_tok (ask : op -> result) (i : int) : string =
         if t > 0 then Buffer.add_char b '/';
         Buffer.add_string b
           (String.concat ","
-             [ short (ask (OCastPtr (d, t'))); short (ask (OCastCPtr (d, t'))); short (ask (OCastVal (d, t')));
-               short (ask (OCastCVal (d, t'))) ])
+             [ short (ask (OCastPtr (d, t'))); short (ask (OCastCPtr (d, t'))); short (ask (OCastPtrCq (d, t')));
+               short (ask (OCastVal (d, t'))); short (ask (OCastCVal (d, t'))); short (ask (OCastRefCq (d, t'))) ])
       done;
       Buffer.contents b
 
 let count_holds (vs : view list) (t : int) : int =
   List.length (List.filter (fun x -> match x with VHolds (t', _) -> int_of_nat t' = t | _ -> false) vs)
+
+(* constructions of probe-type objects among the newest k events of the log:
+   all of type 4 (Probe has no move constructor), copies and moves of type 5 (MProbe), all of type 6 *)
+let rec take k l = if k <= 0 then [] else match l with [] -> [] | x :: r -> x :: take (k - 1) r
+let k_tok (evs : (nat * bool) list) : string =
+  let c p = List.length (List.filter p evs) in
+  Printf.sprintf "K%d,%d,%d,%d"
+    (c (fun (t, _) -> int_of_nat t = 4))
+    (c (fun (t, m) -> int_of_nat t = 5 && not m))
+    (c (fun (t, m) -> int_of_nat t = 5 && m))
+    (c (fun (t, _) -> int_of_nat t = 6))
 
 let () =
   let cases = Caseio.read_records "case" stdin in
@@ -96,17 +120,19 @@ let () =
       let vs = ref (views !st) in
       List.iteri
         (fun k o ->
+          let before = List.length (st_ctors !st) in
           let st', r = step o !st in
           st := st';
-          let line ask res l4 l5 =
-            (res_tok res :: List.init n (slot_tok ask)) @ [ Printf.sprintf "L%d,%d" l4 l5 ]
+          let evs = take (List.length (st_ctors !st) - before) (st_ctors !st) in
+          let line ask res l4 l5 l6 =
+            (res_tok res :: List.init n (slot_tok ask)) @ [ Printf.sprintf "L%d,%d,%d" l4 l5 l6 ]
           in
-          Caseio.out_word (Printf.sprintf "r%d" k)
-            (line (fun q -> snd (step q !st)) r (int_of_nat (live_count (nat_of_int 4) !st)) (int_of_nat (live_count (nat_of_int 5) !st)));
+          let lc t = int_of_nat (live_count (nat_of_int t) !st) in
+          Caseio.out_word (Printf.sprintf "r%d" k) (line (fun q -> snd (step q !st)) r (lc 4) (lc 5) (lc 6) @ [ k_tok evs ]);
           let vs', sr = spec_step o !vs in
           vs := vs';
           Caseio.out_word (Printf.sprintf "s%d" k)
-            (line (fun q -> snd (spec_step q !vs)) sr (count_holds !vs 4) (count_holds !vs 5)))
+            (line (fun q -> snd (spec_step q !vs)) sr (count_holds !vs 4) (count_holds !vs 5) (count_holds !vs 6)))
         ops;
       let fin = destroy_all !st in
       let sorted l = List.sort compare (List.map int_of_nat l) in
